@@ -136,8 +136,9 @@ TEXTS = {
              "successful save, a dry run on a cloned world counts every serialisation step (each field encoding, each key-file "
              "open, each encryption, the formatter); the save is then re-executed once per step with exactly that step failing, "
              "plus natural failures (unknown format, bad option, short/unreadable key file, unwritable key directory, value "
-             "outside the format's domain); after each, destination bytes and the SimFS journal (no open-for-write) are checked; "
-             "successful saves are compared with the formatter's bytes and re-loaded in a new session",
+             "outside the format's domain); after each save that failed the destination must hold its previous bytes (a save "
+             "that returns normally is held to the other half of the statement instead: what it wrote must load); successful "
+             "saves are compared with the formatter's bytes and re-loaded in a new session",
              "Fault enumeration: exhaustive over the fault points of each sampled (state, format) pair, sampled over states. "
              "SimFS truncates on open('wb') exactly like a real disk, so serialising after opening is caught at every step.",
              "DESIGN.md 5 (C19)"),
